@@ -178,7 +178,7 @@ def filter_true_sets(F, kb):
                 if a[0] == "discr" and isinstance(o, str):
                     adt = dp.adt_of.get(a, "")
                     if adt.startswith("event::") or adt == "std::result::Result":
-                        if D.mentions(a[1], lambda x: x == ("arg", 2)):
+                        if D.mentions(a[1], lambda x: x == ("arg", 2 if kb.kind == "Closure" else 1)):
                             d[adt.rsplit("::", 1)[-1]] = o
             out.append(frozenset(d.items()))
         elif p.ret != ("const", False):
@@ -259,6 +259,25 @@ def r2(F, R):
                 kb = A.closure_of_operand(F, b, f["filter"])
                 if kb is not None:
                     ctors[b.name.rsplit("::", 1)[-1]] = kb
+            # ... or the constructor delegates: `Self::new(writer, is_skipped)` with the filter as a closure or a fn item
+            if b.name.rsplit("::", 1)[-1] not in ctors:
+                for s, t in b.calls():
+                    cb = F.callee_body(t, b.crate)
+                    if cb is None or (cb.impl or {}).get("self_adt") != REP:
+                        continue
+                    for a in t["args"]:
+                        kb = A.closure_of_operand(F, b, a)
+                        if kb is None:
+                            fi = op_fn(a)
+                            if fi is None:
+                                l = op_local(a)
+                                sd = b.single_def(A.canon_place(b, {"l": l, "p": []})["l"]) if l is not None else None
+                                if sd and sd[1] == "assign" and sd[2]["rv"]["k"] in ("use", "cast"):
+                                    fi = op_fn(sd[2]["rv"]["op"])
+                            if fi is not None and fi.get("local"):
+                                kb = F.body(fi.get("res") or fi["path"], b.crate) or F.body(fi["path"], b.crate)
+                        if kb is not None and kb.locals[0] == "bool":
+                            ctors[b.name.rsplit("::", 1)[-1]] = kb
 
     def lv(level, kind, var, key):
         base = {"Result": "Ok", "Cucumber": "Feature", "Feature": level, "Scenario": kind, key: var}
